@@ -315,13 +315,17 @@ namespace Pistache
 
     bool match_double(double* val, StreamCursor& cursor)
     {
-        // @Todo: strtod does not support a length argument
+        // strtod does not support a length argument and skips leading
+        // whitespace (including CR and LF): run it on a NUL-terminated copy of
+        // the remaining bytes so that it never reads past the end of the buffer
+        const std::string remaining(cursor.offset(), cursor.remaining());
+        const char* begin = remaining.c_str();
         char* end;
-        *val = strtod(cursor.offset(), &end);
-        if (end == cursor.offset())
+        *val = strtod(begin, &end);
+        if (end == begin)
             return false;
 
-        cursor.advance(static_cast<ptrdiff_t>(end - cursor.offset()));
+        cursor.advance(static_cast<size_t>(end - begin));
         return true;
     }
 
